@@ -4,6 +4,7 @@ import MitmVerif.Model.C38_Conv
 import MitmVerif.Model.C38_State
 import MitmVerif.Model.C38_Tuple
 import MitmVerif.Model.C38_Bytes
+import MitmVerif.Model.C38_Migrate
 import Driver.Proto
 open MitmVerif Driver MitmVerif.C38 MitmVerif.Gen.C38
 
@@ -57,12 +58,17 @@ def c38Step (line : String) : String :=
 structure DSt where
   ws  : MitmVerif.C38Conv.Tbl MitmVerif.C38Conv.Dict
   ids : MitmVerif.C38Conv.Ids
+  fadd : List (Bytes × Bytes) := []      -- library answers handed in by the harness: text of a float ↦ text of that float + 1
 
 def freshId (n : Nat) : MitmVerif.C36.Value := .str (("uuid-" ++ toString n).toUTF8.toList)
 
 def c38StepSt (st : DSt) (line : String) : DSt × String :=
   match fields line with
-  | ["tables-reset"] => ({ ws := [], ids := { client := [], server := [], drawn := 0 } }, "ok")
+  | ["tables-reset"] => ({ ws := [], ids := { client := [], server := [], drawn := 0 }, fadd := [] }, "ok")
+  | ["fadd", a, b] =>
+    match hexOr a, hexOr b with
+    | some a, some b => ({ st with fadd := (a, b) :: st.fadd }, "ok")
+    | _, _ => (st, "bad-op")
   | ["conv11", h] =>
     match hexOr h with
     | some b =>
@@ -72,6 +78,17 @@ def c38StepSt (st : DSt) (line : String) : DSt × String :=
         | some (g', d') => ({ st with ws := g' }, s!"ok {showBytes (MitmVerif.C36.dumps (.dict d'))} {g'.length}")
         | none => (st, "none")
       | _ => (st, "bad-state")
+    | none => (st, "bad-op")
+  | ["migrate", h] =>
+    -- the whole migrate_flow loop on one record, tables carried over from the previous lines
+    match hexOr h with
+    | some b =>
+      match MitmVerif.C36.popTop 64 b, current with
+      | .ok (.dict kvs, []), .int cur =>
+        match MitmVerif.C38Conv.migrateFlow freshId (fun t => (st.fadd.find? (fun p => p.1 == t)).map (·.2)) cur 64 { ws := st.ws, ids := st.ids } none kvs with
+        | some (st', d') => ({ st with ws := st'.ws, ids := st'.ids }, s!"ok {showBytes (MitmVerif.C36.dumps (.dict d'))} {st'.ws.length}")
+        | none => (st, "none")
+      | _, _ => (st, "bad-state")
     | none => (st, "bad-op")
   | ["conv4", h] =>
     match hexOr h with
